@@ -126,7 +126,9 @@ def flatten_h1_notes(h1s: Iterable[Any]) -> list[Any]:
     return notes
 
 
-def _var_map_value(value: str) -> Any:
-    if re.match("^[0-9]{4}[01][0-9][0-3][0-9]$", value):
+def _var_map_value(value: Any) -> Any:
+    if isinstance(value, str) and re.match(
+        "^[0-9]{4}[01][0-9][0-3][0-9]$", value
+    ):
         return dt.datetime.strptime(value, "%Y%m%d")
     return value
